@@ -103,23 +103,36 @@ def find_guard(prog, fn, enum_path, variant, need_a, need_b, search_tree=True):
     best = r or ("no-site", "error variant %s is not constructed" % variant)
     if not search_tree:
         return best
+    from .engine import resolve_upvars
     frontier = [(fn, None, 0)]
     seen = {fn.id}
     while frontier:
         f, subst, depth = frontier.pop(0)
         if depth >= 2:
             continue
-        for bi, t in f.calls():
-            callee = f.callee_of(t) or ""
+        # the helper may be called from a closure of f (`items.iter().try_for_each(|x| helper(ctx, x))?`)
+        callsites = [(f, bi, t) for bi, t in f.calls()]
+        for cid in prog.closures_in(f.id):
+            c_ = prog.fns[cid]
+            callsites += [(c_, bi, t) for bi, t in c_.calls()]
+        for g, bi, t in callsites:
+            callee = g.callee_of(t) or ""
             h = prog.fns.get(callee)
-            if h is None or h.id in seen or f.blocks[bi]["cl"] or not h.crate.startswith(fn.crate.split("_")[0]):
+            if h is None or h.id in seen or g.blocks[bi]["cl"] or not h.crate.startswith(fn.crate.split("_")[0]):
                 continue
-            if not result_inspected(f, bi)[0]:
+            if not result_inspected(g, bi)[0]:
                 continue
             seen.add(h.id)
             sub = {}
             for ai, a in enumerate(t["args"]):
-                tk = side_tokens(f, a)
+                if g is f:
+                    tk = side_tokens(f, a)
+                else:
+                    cur, hh = g.origins().of_operand(a, deep=True), g
+                    while hh is not None and hh.is_closure():
+                        cur = resolve_upvars(hh, cur, True)
+                        hh = prog.fns.get(hh.rec.get("parent"))
+                    tk = tokens_of_atoms(cur)
                 if subst:
                     extra = set()
                     for x in tk:
